@@ -80,6 +80,11 @@ func (k *Keeper) SlashAssets(ctx sdk.Context, parameter *types.SlashInputInfo) (
 		return nil, err
 	}
 	// calculate the new slash proportion
+	// an operator without any staked or unbonding value has nothing to slash; dividing by its
+	// (zero) value would panic, and this function is reached from BeginBlock.
+	if !stakingInfo.StakingAndWaitUnbonding.IsPositive() {
+		return nil, errorsmod.Wrapf(types.ErrValueIsNilOrZero, "the operator has no value to slash, operator:%s", parameter.Operator.String())
+	}
 	newSlashProportion := slashUSDValue.Quo(stakingInfo.StakingAndWaitUnbonding)
 	newSlashProportion = sdkmath.LegacyMinDec(sdkmath.LegacyNewDec(1), newSlashProportion)
 
